@@ -30,16 +30,16 @@ Qed.
 Lemma filter_length_le : forall (A : Type) (p : A -> bool) l, (length (filter p l) <= length l)%nat.
 Proof. induction l as [|x l IH]; cbn; [lia|]. destruct (p x); cbn; lia. Qed.
 
-Lemma map_install_within : forall g s n rest s' o,
+Lemma map_install_within : forall g s n paged rest s' o,
   g_limit g <> 0 -> held s <= g_limit g ->
-  map_install true g s n rest = (s', o) -> held s' <= g_limit g.
+  map_install true g s n paged rest = (s', o) -> held s' <= g_limit g.
 Proof.
-  intros g s n rest s' o Z W H. unfold map_install, at_limit in H. cbn [andb] in H.
+  intros g s n paged rest s' o Z W H. unfold map_install, at_limit in H. cbn [andb] in H.
   assert (Zb : (0 <? g_limit g) = true) by (apply N.ltb_lt; lia). rewrite Zb in H. cbn [andb] in H.
   destruct (g_limit g <=? held s) eqn:L.
-  - inversion H; subst. unfold held in *. cbn [chans resv] in *. exact W.
-  - nb. destruct (memN n (chans s)); inversion H; subst; unfold held in *; cbn [chans resv] in *;
-      rewrite ?app_length; cbn [length]; lia.
+  - inversion H; subst. unfold held in *. cbn [chans resv mpag] in *. exact W.
+  - nb. destruct (memN n (chans s) || memN n (mpag s)); [|destruct paged]; inversion H; subst;
+      unfold held in *; cbn [chans resv mpag] in *; rewrite ?app_length; cbn [length]; lia.
 Qed.
 
 Lemma step_within : forall lc g s l s' o,
@@ -57,52 +57,78 @@ Proof.
     destruct ((0 <? g_maxlen g) && (g_maxlen g <? len) &&
               (negb match rt with RSharedPoll => true | _ => false end || lc)); [inversion H'; subst; assumption|].
     unfold at_limit in H'. rewrite Zb in H'. cbn [andb] in H'.
-    destruct rt.
-    + destruct (taken s n); [inversion H'; subst; assumption|].
-      destruct (g_limit g <=? held s) eqn:L; [inversion H'; subst; assumption|]. nb.
-      destruct sc; inversion H'; subst; unfold held in *; cbn [chans resv] in *;
-        rewrite ?app_length; cbn [length]; lia.
-    + destruct (taken s n); [inversion H'; subst; assumption|].
-      destruct (g_limit g <=? held s) eqn:L; [inversion H'; subst; assumption|]. nb.
-      destruct sc; inversion H'; subst; unfold held in *; cbn [chans resv] in *;
-        rewrite ?app_length; cbn [length]; lia.
-    + destruct (memN n (chans s)); [inversion H'; subst; assumption|].
-      destruct (g_limit g <=? held s) eqn:L; [inversion H'; subst; assumption|].
+    assert (Reg : forall (a : st * list out),
+              (if taken s n then (s, [OReply 105]) else
+               if g_limit g <=? held s then (s, [OReply 106]) else
+               match sc with
+               | SOk => (mkSt false (chans s ++ [n]) (resv s) (mpend s) (mpag s) (next s) (q s), [OHandler n; OReply 0])
+               | SErr code => (s, [OHandler n; OReply code])
+               | SAsync => (mkSt false (chans s) (resv s ++ [(next s, n)]) (mpend s) (mpag s) (next s + 1) (q s), [OHandler n])
+               end) = (s', o) -> held s' <= g_limit g).
+    { intros _ Hr. destruct (taken s n); [inversion Hr; subst; assumption|].
+      destruct (g_limit g <=? held s) eqn:L; [inversion Hr; subst; assumption|]. nb.
+      destruct sc; inversion Hr; subst; unfold held in *; cbn [chans resv mpag] in *;
+        rewrite ?app_length; cbn [length]; lia. }
+    assert (Mp : forall paged,
+              (if memN n (chans s) || memN n (mpag s) then (s, [OReply 105]) else
+               if g_limit g <=? held s then (s, [OReply 106]) else
+               match sc with
+               | SOk => let '(s1, o1) := map_install true g s n paged (mpend s) in (s1, OHandler n :: o1)
+               | SErr code => (s, [OHandler n; OReply code])
+               | SAsync => (mkSt false (chans s) (resv s) (mpend s ++ [(next s, n)]) (mpag s) (next s + 1) (q s), [OHandler n])
+               end) = (s', o) -> held s' <= g_limit g).
+    { intros paged Hr. destruct (memN n (chans s) || memN n (mpag s)); [inversion Hr; subst; assumption|].
+      destruct (g_limit g <=? held s) eqn:L; [inversion Hr; subst; assumption|].
       destruct sc.
-      * destruct (map_install true g s n (mpend s)) as [s1 o1] eqn:M. inversion H'; subst.
+      - destruct (map_install true g s n paged (mpend s)) as [s1 o1] eqn:M. inversion Hr; subst.
         eapply map_install_within; eassumption.
-      * inversion H'; subst; assumption.
-      * inversion H'; subst. unfold held in *. cbn [chans resv] in *. exact W.
+      - inversion Hr; subst; assumption.
+      - inversion Hr; subst. unfold held in *. cbn [chans resv mpag] in *. exact W. }
+    destruct rt; cbv zeta in H'.
+    + apply (Reg (s', o)); exact H'.
+    + apply (Reg (s', o)); exact H'.
+    + apply (Mp false); exact H'.
+    + apply (Mp true); exact H'.
   - (* completion *)
     inversion H as [H']. unfold complete_gen in H'.
     destruct (take tok (resv s)) as [[n rest]|] eqn:T.
     + pose proof (take_length _ _ _ _ T) as TL.
-      destruct (closed s); [|destruct ok]; inversion H'; subst; unfold held in *; cbn [chans resv] in *;
+      destruct (closed s); [|destruct ok]; inversion H'; subst; unfold held in *; cbn [chans resv mpag] in *;
         rewrite ?app_length; cbn [length]; lia.
     + destruct (take tok (mpend s)) as [[n rest]|] eqn:T2; [|inversion H'; subst; assumption].
-      destruct (closed s); [inversion H'; subst; unfold held in *; cbn [chans resv] in *; exact W|].
+      destruct (closed s); [inversion H'; subst; unfold held in *; cbn [chans resv mpag] in *; exact W|].
       destruct ok.
       * eapply map_install_within; eassumption.
-      * inversion H'; subst. unfold held in *. cbn [chans resv] in *. exact W.
+      * inversion H'; subst. unfold held in *. cbn [chans resv mpag] in *. exact W.
   - (* server-side subscribe *)
     inversion H as [H']. unfold srv_sub, at_limit in H'.
     destruct (closed s) eqn:C; [inversion H'; subst; assumption|].
     rewrite Zb in H'. cbn [andb] in H'.
     destruct (g_limit g <=? held s) eqn:L.
-    + unfold close in H'. rewrite C in H'. inversion H'; subst. unfold held in *. cbn [chans resv] in *. exact W.
+    + unfold close in H'. rewrite C in H'. inversion H'; subst. unfold held in *. cbn [chans resv mpag] in *. exact W.
     + nb. destruct (taken s n); inversion H'; subst; [assumption|].
-      unfold held in *; cbn [chans resv] in *; rewrite app_length; cbn [length]; lia.
+      unfold held in *; cbn [chans resv mpag] in *; rewrite app_length; cbn [length]; lia.
   - (* unsubscribe *)
     unfold unsub_cmd in H. destruct (closed s); [inversion H; subst; assumption|].
-    destruct (memN n (map snd (resv s))); [discriminate|]. inversion H; subst.
-    unfold held in *; cbn [chans resv] in *.
+    destruct (memN n (map snd (resv s)) || memN n (mpag s)); [discriminate|]. inversion H; subst.
+    unfold held in *; cbn [chans resv mpag] in *.
     pose proof (filter_length_le N (fun x => negb (x =? n)) (chans s)). lia.
+  - (* last page of a paginated map subscription *)
+    unfold map_next in H. destruct (closed s); [inversion H; subst; assumption|].
+    destruct (memN n (mpag s)) eqn:M; [|discriminate]. inversion H; subst.
+    unfold held in *; cbn [chans resv mpag] in *. rewrite app_length. cbn [length].
+    assert (L : (length (filter (fun x => negb (x =? n)) (mpag s)) < length (mpag s))%nat).
+    { clear -M. unfold memN in M. induction (mpag s) as [|y l IH]; [discriminate|].
+      cbn [existsb] in M. cbn [filter]. rewrite (N.eqb_sym y n). destruct (n =? y) eqn:E; cbn [negb].
+      - pose proof (filter_length_le N (fun x => negb (x =? n)) l). cbn [length]. lia.
+      - cbn [orb] in M. cbn [length]. specialize (IH M). lia. }
+    lia.
   - (* enqueue *)
     inversion H as [H']. unfold enqueue in H'. destruct (closed s) eqn:C; [inversion H'; subst; assumption|].
     cbv zeta in H'. cbn [q] in H'.
     destruct ((0 <? g_maxq g) && (g_maxq g <? q s + size)).
-    + unfold close in H'. cbn [closed] in H'. inversion H'; subst. unfold held in *. cbn [chans resv] in *. exact W.
-    + inversion H'; subst. unfold held in *. cbn [chans resv] in *. exact W.
+    + unfold close in H'. cbn [closed] in H'. inversion H'; subst. unfold held in *. cbn [chans resv mpag] in *. exact W.
+    + inversion H'; subst. unfold held in *. cbn [chans resv mpag] in *. exact W.
 Qed.
 
 (* the channel limit is never exceeded, on any run *)
@@ -149,8 +175,9 @@ Proof.
     apply andb_false_iff. right. apply N.ltb_ge. assumption. }
   rewrite X. cbn [andb].
   apply N.ltb_lt in L1. apply N.leb_le in L2. rewrite L1, L2. cbn [andb].
-  assert (M : memN n (chans s) = false) by (unfold taken in T; apply orb_false_iff in T; tauto).
-  destruct rt; rewrite ?T, ?M; reflexivity.
+  unfold taken in T. apply orb_false_iff in T. destruct T as [T M2]. apply orb_false_iff in T. destruct T as [M1 M3].
+  assert (T : taken s n = false) by (unfold taken; rewrite M1, M2, M3; reflexivity).
+  destruct rt; rewrite ?T, ?M1, ?M2; reflexivity.
 Qed.
 
 Theorem at_limit_server : forall g s n,
